@@ -50,9 +50,14 @@ type Case struct {
 	// EarlierHidden (with Earlier): the earlier use also had a relative arc in a path that was not
 	// drawn at all (transparent paint).
 	EarlierHidden bool `json:"earlier_hidden,omitempty"`
+	// EarlierSize (with Earlier): the earlier use drew into a rectangle of this size (one side
+	// may equal the case's), so the Renderer was re-targeted in between.
+	EarlierSize [2]int `json:"earlier_size,omitempty"`
 	// Prelude: the graphic has an earlier path with an arc of another rotation and a zero-radius arc
 	// of this rotation.
 	Prelude bool `json:"prelude,omitempty"`
+	// PreludeRel (with Prelude): that zero-radius arc is in the relative form.
+	PreludeRel bool `json:"prelude_rel,omitempty"`
 	// PixelCircle: the radii are in exactly the inverse ratio of the two pixel scales.
 	PixelCircle bool `json:"pixel_circle,omitempty"`
 	// ViaBytes: the arc reaches the Renderer through decode.Decode, from a hand-assembled stream
@@ -161,7 +166,11 @@ func checkArc(c Case) error {
 		if c.Rel {
 			ex, ey = float32(c.Start[0])+ex, float32(c.Start[1])+ey
 		}
-		z.SetRasterizer(rr, rect)
+		if c.EarlierSize != [2]int{} {
+			z.SetRasterizer(rr, image.Rect(c.Rect[0], c.Rect[1], c.Rect[0]+c.EarlierSize[0], c.Rect[1]+c.EarlierSize[1]))
+		} else {
+			z.SetRasterizer(rr, rect)
+		}
 		z.Reset(gen.VB([4]float32{vb[0] + dx, vb[1] + dy, vb[2] + dx, vb[3] + dy}), ivg.DefaultPalette)
 		if c.EarlierHidden {
 			// ... in a path that is not drawn (transparent paint), and in the relative form
@@ -196,7 +205,12 @@ func checkArc(c Case) error {
 			sx, sy := float32(c.Start[0]), float32(c.Start[1])
 			z.StartPath(0, sx+1, sy+1)
 			z.AbsArcTo(float32(math.Abs(float64(c.RX)))+1, float32(math.Abs(float64(c.RY)))+2.5, float32(c.Rot)+0.13, false, true, sx+3, sy+2)
-			z.AbsArcTo(0, 5, float32(c.Rot), false, true, sx+4, sy+4)
+			if c.PreludeRel {
+				z.RelArcTo(0, 5, float32(c.Rot), false, true, 1, 2)
+				z.AbsLineTo(sx-2, sy+3)
+			} else {
+				z.AbsArcTo(0, 5, float32(c.Rot), false, true, sx+4, sy+4)
+			}
 			z.ClosePathEndPath()
 			rr.Calls = rr.Calls[:0]
 		}
@@ -613,6 +627,14 @@ func TestArcs(t *testing.T) {
 		if rapid.IntRange(0, 3).Draw(t, "earlier") == 0 {
 			c.Earlier = [2]int{rapid.IntRange(-40, 40).Draw(t, "edx"), rapid.IntRange(-40, 40).Draw(t, "edy")}
 			c.EarlierHidden = rapid.Bool().Draw(t, "ehidden")
+			switch rapid.IntRange(0, 5).Draw(t, "esize") {
+			case 0: // same width, another height
+				c.EarlierSize = [2]int{c.Rect[2], rapid.IntRange(8, 600).Draw(t, "eh")}
+			case 1: // same height, another width
+				c.EarlierSize = [2]int{rapid.IntRange(8, 600).Draw(t, "ew"), c.Rect[3]}
+			case 2:
+				c.EarlierSize = [2]int{rapid.IntRange(8, 600).Draw(t, "ew"), rapid.IntRange(8, 600).Draw(t, "eh")}
+			}
 		}
 		if rapid.IntRange(0, 4).Draw(t, "viabytes") == 0 {
 			c.ViaBytes = true
@@ -625,9 +647,19 @@ func TestArcs(t *testing.T) {
 			c.Want = nil // constructed for the values before truncation: the independent F.6.5 reference decides
 		}
 		c.Prelude = rapid.IntRange(0, 4).Draw(t, "prelude") == 0
+		c.PreludeRel = c.Prelude && rapid.Bool().Draw(t, "preluderel")
 		nt, labels := classify(c)
 		if c.Prelude {
 			labels = append(labels, "earlier-path-with-another-rotation-then-a-zero-radius-arc-of-this-one")
+		}
+		if c.PreludeRel {
+			labels = append(labels, "earlier-path-ends-with-a-relative-zero-radius-arc-and-a-line")
+		}
+		if c.EarlierSize != [2]int{} {
+			labels = append(labels, "renderer-re-targeted-to-another-size-since-the-earlier-arc")
+			if c.EarlierSize[0] == c.Rect[2] && c.EarlierSize[1] != c.Rect[3] || c.EarlierSize[1] == c.Rect[3] && c.EarlierSize[0] != c.Rect[2] {
+				labels = append(labels, "re-targeted-with-one-side-unchanged")
+			}
 		}
 		if math.Abs(float64(c.Rot)) > 100 {
 			labels = append(labels, "rotation-of-many-whole-turns")
